@@ -12,7 +12,10 @@ use std::panic::{catch_unwind, AssertUnwindSafe};
 use std::path::{Path, PathBuf};
 use std::time::Instant;
 
-pub const VERIF_DIR: &str = "/verif";
+/// Root of the verification tree (where evidence/, replays/, known_findings.json live).
+pub fn verif_dir() -> String {
+    std::env::var("VERIF_ROOT").unwrap_or_else(|_| "/verif".to_string())
+}
 
 #[derive(Clone, Copy, Debug, PartialEq, Eq, Serialize, Deserialize)]
 pub enum Tier {
@@ -161,9 +164,15 @@ pub struct KnownFinding {
 }
 
 pub fn load_known(id: &str) -> Vec<KnownFinding> {
-    let p = Path::new(VERIF_DIR).join("known_findings.json");
+    let p = Path::new(&verif_dir()).join("known_findings.json");
     let Ok(s) = std::fs::read_to_string(&p) else { return vec![] };
-    let all: Vec<KnownFinding> = serde_json::from_str(&s).expect("known_findings.json must parse");
+    let mut all: Vec<KnownFinding> = serde_json::from_str(&s).expect("known_findings.json must parse");
+    // per-property fragments (known/CNN.json) are merged into the main file when a branch lands
+    let frag = Path::new(&verif_dir()).join("known").join(format!("{id}.json"));
+    if let Ok(s) = std::fs::read_to_string(&frag) {
+        let more: Vec<KnownFinding> = serde_json::from_str(&s).expect("known/<id>.json must parse");
+        all.extend(more);
+    }
     all.into_iter().filter(|k| k.property == id).collect()
 }
 
@@ -198,6 +207,11 @@ pub trait Prop: Sync {
     /// preferred number of worker processes (None = all cores)
     fn workers(&self, _tier: Tier) -> Option<u32> {
         None
+    }
+    /// Entry for `vcheck child <ID> <mode> <input.json>` single-case child processes.
+    fn child(&self, _mode: &str, _input: &Value) -> i32 {
+        eprintln!("no child modes");
+        2
     }
     /// wall-clock watchdog for one worker in seconds (a hit means "inconclusive", exit 2)
     fn watchdog_s(&self, tier: Tier) -> u64 {
@@ -461,12 +475,12 @@ pub fn catch_check<E, C>(check: &dyn Fn(&mut E, &C) -> Verdict, env: &mut E, cas
             let p = crate::session::take_last_panic();
             // a panic that escaped the session layer: classify by location
             let loc = p.split_whitespace().next().unwrap_or("?").to_string();
-            if loc.starts_with("src/") {
-                // the harness's own sources are compiled with crate-relative paths; scryer's
-                // (a path dependency outside this workspace) with absolute /repo/... paths
+            if loc.starts_with("harness:") {
+                // a bug of the harness itself: never a verdict on scryer; the master turns any
+                // such discard into exit 2 (inconclusive)
                 Verdict::Discard(format!("harness-panic {loc}"))
             } else {
-                Verdict::fail(format!("panic:{}", loc.trim_start_matches("/repo/")), p)
+                Verdict::fail(format!("panic:{loc}"), p)
             }
         }
     }
@@ -503,7 +517,7 @@ pub struct ReplayFile {
 }
 
 pub fn save_replay(id: &str, f: &Failure) -> PathBuf {
-    let dir = Path::new(VERIF_DIR).join("replays").join(id);
+    let dir = Path::new(&verif_dir()).join("replays").join(id);
     std::fs::create_dir_all(&dir).ok();
     let rf = ReplayFile { property: id.to_string(), kind: f.kind.clone(), signature: f.signature.clone(), detail: f.detail.clone(), case: f.case.clone() };
     let body = serde_json::to_string_pretty(&rf).unwrap();
@@ -526,7 +540,7 @@ pub fn run_master(prop: &dyn Prop, tier: Tier, seed: u64) -> i32 {
     // 1. witnesses of known findings + stored regression replays
     for k in &known {
         if let Some(w) = &k.witness {
-            let wp = Path::new(VERIF_DIR).join(w);
+            let wp = Path::new(&verif_dir()).join(w);
             let out = std::process::Command::new(&exe).args(["replay", id, wp.to_str().unwrap(), "--raw"]).output();
             let (code, stdout) = match out {
                 Ok(o) => (o.status.code().unwrap_or(-1), String::from_utf8_lossy(&o.stdout).to_string()),
@@ -551,7 +565,7 @@ pub fn run_master(prop: &dyn Prop, tier: Tier, seed: u64) -> i32 {
         }
     }
     // regression replays (saved mutant / fixed-defect cases): /verif/regress/<id>/*.json must pass
-    let rdir = Path::new(VERIF_DIR).join("regress").join(id);
+    let rdir = Path::new(&verif_dir()).join("regress").join(id);
     let mut regress_run = 0;
     if let Ok(rd) = std::fs::read_dir(&rdir) {
         let mut files: Vec<PathBuf> = rd.filter_map(|e| e.ok()).map(|e| e.path()).filter(|p| p.extension().map(|x| x == "json").unwrap_or(false)).collect();
@@ -574,7 +588,7 @@ pub fn run_master(prop: &dyn Prop, tier: Tier, seed: u64) -> i32 {
     let ncpu = std::thread::available_parallelism().map(|n| n.get() as u32).unwrap_or(16);
     let jobs: u32 = std::env::var("VERIF_JOBS").ok().and_then(|s| s.parse().ok()).unwrap_or(ncpu);
     let nshards = prop.workers(tier).unwrap_or(jobs).max(1);
-    let tmp = Path::new(VERIF_DIR).join("scratch").join(format!("{}-{}", id, std::process::id()));
+    let tmp = Path::new(&verif_dir()).join("scratch").join(format!("{}-{}", id, std::process::id()));
     std::fs::create_dir_all(&tmp).ok();
     let mut children = vec![];
     for shard in 0..nshards {
@@ -704,7 +718,7 @@ pub fn run_master(prop: &dyn Prop, tier: Tier, seed: u64) -> i32 {
         "wall_s": (t0.elapsed().as_secs_f64() * 100.0).round() / 100.0,
         "violations": violations.len(),
     });
-    let evdir = Path::new(VERIF_DIR).join("evidence");
+    let evdir = Path::new(&verif_dir()).join("evidence");
     std::fs::create_dir_all(&evdir).ok();
     std::fs::write(evdir.join(format!("{id}.json")), serde_json::to_string_pretty(&ev).unwrap()).expect("write evidence");
 
@@ -715,6 +729,14 @@ pub fn run_master(prop: &dyn Prop, tier: Tier, seed: u64) -> i32 {
         println!("VIOLATION property={} replay={}", id, p.display());
         println!("  detail: {}", what.chars().take(600).collect::<String>());
         exit_code = 1;
+    }
+    for (k, v) in &total.classes {
+        if k.starts_with("discard:harness-panic") {
+            inconclusive.push(format!("{v} case(s) hit a panic inside the harness itself: {k}"));
+        }
+    }
+    if total.evaluations > 0 && total.discarded * 2 > total.evaluations {
+        inconclusive.push(format!("more than half of the generated cases were discarded ({} of {})", total.discarded, total.evaluations));
     }
     if exit_code == 0 && !inconclusive.is_empty() {
         for i in &inconclusive {
@@ -808,5 +830,74 @@ pub fn run_replay(prop: &dyn Prop, file: &Path, raw: bool) -> i32 {
     }
 }
 
-#[derive(Serialize, Deserialize, Clone, Debug)]
-pub struct Unit;
+// ---------------------------------------------------------------------------------------------
+// Child processes (one case per process, main thread with the default 8 MiB stack)
+
+#[derive(Clone, Debug)]
+pub struct ChildOutcome {
+    /// exit code when the child exited normally
+    pub code: Option<i32>,
+    /// terminating signal, if any
+    pub signal: Option<i32>,
+    pub timed_out: bool,
+    pub stdout: String,
+    pub stderr: String,
+}
+
+impl ChildOutcome {
+    pub fn stack_overflow(&self) -> bool {
+        self.stderr.contains("has overflowed its stack") || self.stderr.contains("stack overflow")
+    }
+    pub fn crashed(&self) -> bool {
+        self.signal.is_some() || self.stack_overflow()
+    }
+}
+
+static CHILD_SEQ: std::sync::atomic::AtomicU64 = std::sync::atomic::AtomicU64::new(0);
+
+/// Run `vcheck child <id> <mode> <input>` and wait for it (killed after `timeout_s`).
+/// `env` adds environment variables (e.g. RUST_MIN_STACK is irrelevant: the case runs on the main thread).
+pub fn run_child(id: &str, mode: &str, input: &Value, timeout_s: u64, env: &[(&str, &str)]) -> ChildOutcome {
+    use std::os::unix::process::ExitStatusExt;
+    let exe = std::env::current_exe().unwrap();
+    let dir = Path::new(&verif_dir()).join("scratch").join(format!("child-{}", std::process::id()));
+    std::fs::create_dir_all(&dir).ok();
+    let seq = CHILD_SEQ.fetch_add(1, std::sync::atomic::Ordering::SeqCst);
+    let inp = dir.join(format!("in{seq}.json"));
+    let outp = dir.join(format!("out{seq}.txt"));
+    let errp = dir.join(format!("err{seq}.txt"));
+    std::fs::write(&inp, serde_json::to_vec(input).unwrap()).unwrap();
+    let mut cmd = std::process::Command::new(&exe);
+    cmd.args(["child", id, mode, inp.to_str().unwrap()]);
+    for (k, v) in env {
+        cmd.env(k, v);
+    }
+    cmd.stdin(std::process::Stdio::null());
+    cmd.stdout(std::fs::File::create(&outp).unwrap());
+    cmd.stderr(std::fs::File::create(&errp).unwrap());
+    let t0 = Instant::now();
+    let mut child = cmd.spawn().expect("spawn child");
+    let mut timed_out = false;
+    let status = loop {
+        match child.try_wait() {
+            Ok(Some(st)) => break Some(st),
+            Ok(None) => {
+                if t0.elapsed().as_secs() >= timeout_s {
+                    let _ = child.kill();
+                    let _ = child.wait();
+                    timed_out = true;
+                    break None;
+                }
+                std::thread::sleep(std::time::Duration::from_millis(5));
+            }
+            Err(_) => break None,
+        }
+    };
+    let stdout = std::fs::read_to_string(&outp).unwrap_or_default();
+    let stderr = std::fs::read(&errp).map(|b| String::from_utf8_lossy(&b).to_string()).unwrap_or_default();
+    let _ = std::fs::remove_file(&inp);
+    let _ = std::fs::remove_file(&outp);
+    let _ = std::fs::remove_file(&errp);
+    let _ = std::fs::remove_dir(&dir);
+    ChildOutcome { code: status.and_then(|s| s.code()), signal: status.and_then(|s| s.signal()), timed_out, stdout, stderr }
+}
